@@ -1,9 +1,13 @@
 #!/bin/sh
-# Offline setup: pre-build the Kani harness crate's dependencies so later runs only rebuild path-dependencies.
-set -e
+# Offline setup: pre-build the dependencies of the two cargo crates under /verif so that later runs only rebuild the
+# path-dependencies on /repo. Nothing is fetched; target directories live under /verif/target.
 cd /verif
 mkdir -p build .cache evidence target
 cp /repo/Cargo.lock kani/Cargo.lock
-( cd kani && CARGO_NET_OFFLINE=true cargo kani -Z stubbing --harness c19_sign_predicates --output-format terse >/verif/build/setup_kani.log 2>&1 ) || echo "kani warm-up failed (see build/setup_kani.log); checks will report undecided for Kani obligations"
-verus --version >/dev/null
+cp /repo/Cargo.lock replay/Cargo.lock
+( cd kani && CARGO_NET_OFFLINE=true cargo kani -Z stubbing --harness c19_sign_predicates --output-format terse >/verif/build/setup_kani.log 2>&1 ) \
+  || echo "kani warm-up failed (see build/setup_kani.log); Kani obligations will be reported undecided"
+( cd replay && CARGO_NET_OFFLINE=true cargo test --offline --no-run >/verif/build/setup_replay.log 2>&1 ) \
+  || echo "replay build failed (see build/setup_replay.log); thorough-tier replays will be reported undecided"
+verus --version >/dev/null || echo "verus missing"
 echo setup done
